@@ -99,6 +99,15 @@ def cells(tier):
     from .p_c04 import mcell as _mcell
     for carry in ([], ['fresh'], ['metaX'], ['roEdStart', 'metaA']):
         out.append(_mcell(PID, 'exc', carry, N=0, T=60 if tier == 'quick' else 600, gap=None))
+    # "a non-strict collection merge always runs to the end": collections of 0..4 messages, any of which may fail
+    # (solver-chosen which), judged for escaping exceptions only
+    from .p_c09 import mk as cmk, QUADS
+    TC = 90 if tier == 'quick' else 600
+    for kinds in ((), ('roStoryMove',), ('roStoryDelete', 'roItemInsert'), ('roStoryReplace', 'roDelete', 'roStoryAppend')) + tuple(QUADS):
+        for src in (('string',) if kinds else ('string', 'file', 's3')):
+            out.append(cmk(PID, kinds, False, src, T=TC, judge='runs-to-end', tag='runs-to-the-end'))
+    out.append(cmk(PID, (), False, 'string', T=TC, judge='runs-to-end', tag='runs-to-the-end', merge_twice=True))
+    out.append(cmk(PID, ('roStoryMove', 'roStoryMove'), False, 'string', T=TC, judge='runs-to-end', tag='runs-to-the-end', rc_completed=True))
     if tier == 'thorough':
         # one more size: five (and six) stories / items for the resolvable and k-th-unresolvable shapes
         out += make_cells(PID, 'exc', tier, N=5, thin=plain2, suffix='N5')
